@@ -111,6 +111,10 @@ DESC = {
 def main():
     run = "--run" in sys.argv
     names = sorted(n for n in os.listdir(SEEDED) if os.path.isdir(os.path.join(SEEDED, n)))
+    only = [a for a in sys.argv[1:] if not a.startswith("--")]
+    if only:
+        names = [n for n in names if n in only or any(n.startswith(o) for o in only if o.endswith("-"))]
+    seed_args = "".join(f" {a}" for a in sys.argv[1:] if a.startswith("--seed="))
     results = {}
     if os.path.exists(os.path.join(SEEDED, "RESULTS.json")):
         results = json.load(open(os.path.join(SEEDED, "RESULTS.json")))
@@ -124,7 +128,7 @@ def main():
                 print("repo dirty, abort"); sys.exit(2)
             subprocess.run(f"git -C /repo apply {d}/patch.diff", shell=True, check=True)
             try:
-                p = subprocess.run(f"cd /verif && ./check {prop} --skip-lean", shell=True, stdout=subprocess.PIPE, stderr=subprocess.STDOUT)
+                p = subprocess.run(f"cd /verif && ./check {prop} --skip-lean" + seed_args.replace("=", " "), shell=True, stdout=subprocess.PIPE, stderr=subprocess.STDOUT)
                 out = p.stdout.decode()
                 viol = [l for l in out.splitlines() if l.startswith("VIOLATION")]
                 results[n] = {"check": prop, "rc": p.returncode, "violation_line": viol[0] if viol else None,
